@@ -165,10 +165,16 @@ func elevEntity(e elevAlert, n int) *gtfsrt.FeedEntity {
 	if c17ElevatorSortOrder != "" {
 		proto.SetExtension(sel, gtfsrt.E_MercuryEntitySelector, &gtfsrt.MercuryEntitySelector{SortOrder: sp(c17ElevatorSortOrder)})
 	}
-	return &gtfsrt.FeedEntity{Id: sp(e.id()), Alert: &gtfsrt.Alert{
+	ent := &gtfsrt.FeedEntity{Id: sp(e.id()), Alert: &gtfsrt.Alert{
 		InformedEntity: []*gtfsrt.EntitySelector{sel},
 		HeaderText:     &gtfsrt.TranslatedString{Translation: []*gtfsrt.TranslatedString_Translation{{Text: sp(fmt.Sprintf("elevator out %d", n))}}},
 	}}
+	if n%2 == 1 {
+		// the alerts at odd positions carry an active period (each its own start), the others none: the members
+		// of a group differ in more than their platform
+		ent.Alert.ActivePeriod = []*gtfsrt.TimeRange{{Start: u64p(uint64(1700000000 + 60*n))}}
+	}
+	return ent
 }
 
 func plainAlertEntity(id string) *gtfsrt.FeedEntity {
